@@ -158,7 +158,23 @@ func c11Exec(c c11Case) (keys []string, detail, class string) {
 	return nil, detail, "twin-equal/" + c.KeyCfg
 }
 
+var c11Memo = map[string][]c11Case{}
+
 func c11Replay(raw json.RawMessage) ([]string, string) {
+	get := func(t string) []c11Case {
+		if d, ok := c11Memo[t]; ok {
+			return d
+		}
+		all, n1 := c11Cases(t == "thorough")
+		c11Memo[t] = all[n1:]
+		return c11Memo[t]
+	}
+	if keys, detail, ok := liveReplay(raw, "C11", func(t string) int { return len(get(t)) }, func(t string, j int) string {
+		k, _, class := c11Exec(get(t)[j])
+		return sig(k, class)
+	}); ok {
+		return keys, detail
+	}
 	var c c11Case
 	if err := json.Unmarshal(raw, &c); err != nil {
 		return nil, err.Error()
@@ -167,11 +183,8 @@ func c11Replay(raw json.RawMessage) ([]string, string) {
 	return k, d
 }
 
-func c11Run(r *mc.Run) {
-	r.Rule = "DecryptBytes level: full product data algorithm(5) x key transport/digest(9: OAEP-MGF1P and OAEP 1.1 with digest absent/sha1/sha256/sha512, RSA 1.5) x EncryptedKey placement(2) x recipient certificate(2) x plaintext length 0..48 x tail(4: non-zero, 1, 2, 16 zero bytes) x CBC pad fill(3: zero, PKCS#7, 0xff), oracle = an independent XML-Enc encryptor (idp/enc.go): decrypted bytes = plaintext exactly; ValidateEncodedResponse level: 45 combinations x 16 residues mod 16 x placement(2) x signing(2) x 4 key configurations (field, setter, both same, both different), oracle = plaintext twin. non-trivial = decryption reached the symmetric step; distinct = distinct case"
-	r.Assume("for non-default OAEP digests MGF1 uses the same hash (the reading under which the library's exported identifiers interoperate with itself)")
-	var cases []c11Case
-	mc.Enumerate(-1, r.Expired, func(ch *mc.Chooser) {
+func c11Cases(thorough bool) (cases []c11Case, n1 int) {
+	mc.Enumerate(-1, nil, func(ch *mc.Chooser) {
 		c := c11Case{Level: "DecryptBytes"}
 		c.DataAlg = ch.Choose("dataalg", 5)
 		c.Transport = ch.Choose("transport", 9)
@@ -188,8 +201,8 @@ func c11Run(r *mc.Run) {
 			cases = append(cases, cc)
 		}
 	})
-	n1 := len(cases)
-	mc.Enumerate(-1, r.Expired, func(ch *mc.Chooser) {
+	n1 = len(cases)
+	mc.Enumerate(-1, nil, func(ch *mc.Chooser) {
 		c := c11Case{Level: "ValidateEncodedResponse"}
 		c.DataAlg = ch.Choose("dataalg", 5)
 		c.Transport = ch.Choose("transport", 9)
@@ -197,7 +210,7 @@ func c11Run(r *mc.Run) {
 		c.Signed = []string{"assertion", "response"}[ch.Choose("signed", 2)]
 		c.Placement = []string{"", "detached"}[ch.Choose("placement", 2)]
 		for res := 0; res < 16; res++ {
-			if !r.Thorough() && res%4 != 1 && c.Placement == "detached" {
+			if !thorough && res%4 != 1 && c.Placement == "detached" {
 				continue
 			}
 			cc := c
@@ -205,12 +218,29 @@ func c11Run(r *mc.Run) {
 			cases = append(cases, cc)
 		}
 	})
+	return cases, n1
+}
+
+func c11Run(r *mc.Run) {
+	r.Rule = "DecryptBytes level: full product data algorithm(5) x key transport/digest(9: OAEP-MGF1P and OAEP 1.1 with digest absent/sha1/sha256/sha512, RSA 1.5) x EncryptedKey placement(2) x recipient certificate(2) x plaintext length 0..48 x tail(4: non-zero, 1, 2, 16 zero bytes) x CBC pad fill(3: zero, PKCS#7, 0xff), oracle = an independent XML-Enc encryptor (idp/enc.go): decrypted bytes = plaintext exactly; ValidateEncodedResponse level: 45 combinations x 16 residues mod 16 x placement(2) x signing(2) x 4 key configurations (field, setter, both same, both different), oracle = plaintext twin. non-trivial = decryption reached the symmetric step; distinct = distinct case"
+	r.Assume("for non-default OAEP digests MGF1 uses the same hash (the reading under which the library's exported identifiers interoperate with itself)")
+	cases, n1 := c11Cases(r.Thorough())
 	r.Set("decryptbytes_cases", n1)
 	r.Set("validate_cases", len(cases)-n1)
 	r.State(len(cases))
+	fresh := make([]string, len(cases))
+	defer func() {
+		// live-instance pass over the ValidateEncodedResponse-level cases (one long-lived SP per
+		// key configuration)
+		livePass(r, len(cases)-n1, 3, 90*time.Second, func(j int) string {
+			keys, _, class := c11Exec(cases[n1+j])
+			return sig(keys, class)
+		}, fresh[n1:])
+	}()
 	r.Par(len(cases), func(i int) {
 		c := cases[i]
 		keys, detail, class := c11Exec(c)
+		fresh[i] = sig(keys, class)
 		r.Eval(1)
 		r.Transition(1)
 		r.Bucket(class)
